@@ -25,7 +25,7 @@ PROBS = [0.5, 0.25, 0.9, 0.8, 1.0, 1, 0.5, 0.9, 1.0, 0, 0.0, 0.001, 0.999, 0.333
 COSTS = [1, 2, 3, 0.5, 1.25, 10, 1, 1, 0.1, 1000, 1e-06, 33554433, 0.30000000000000004]
 SCAN_COSTS = [0, 1, 2, 0.5, 1, 1]
 VALUES = [0, 1, -1, -100, 5, 0.5, 50, 0.125, 0.1, 16777217, -0.3]
-SENS_VALUES = [100, 10, 1, 0.5, 1000, 100, 0.1, 123456.75]
+SENS_VALUES = [100, 10, 1, 0.5, 1000, 100, 0.1, 123456.75, 5.2, 1.1, 2.7, 20000000, 0.3]
 
 
 def _coin(draw, p):
@@ -33,11 +33,13 @@ def _coin(draw, p):
 
 
 @st.composite
-def wide_documents(draw, max_subnets=9, extras=True):
+def wide_documents(draw, max_subnets=9, extras=True, many=0.1):
     """Second family: many small subnets on rings / lines / trees / random graphs
     with 1-3 public subnets and permissive content, so that histories reach
     hosts many hops away from the internet (topology-dependent behaviour)."""
     n = draw(st.integers(4, max_subnets))
+    if draw(st.integers(0, 7)) == 0:
+        n = draw(st.integers(11, 14))        # subnet ids beyond what a signed byte times the subnet count can hold
     sizes = [1] * n
     for _ in range(draw(st.integers(0, 2))):
         sizes[draw(st.integers(0, n - 1))] = 2
@@ -115,7 +117,7 @@ def wide_documents(draw, max_subnets=9, extras=True):
         doc["step_limit"] = draw(st.integers(5, 60)) if _coin(draw, 0.8) else draw(st.sampled_from([200, 250, 601]))
     if extras and _coin(draw, 0.3):
         doc["_discovery_values"] = {a: draw(st.sampled_from(DISCOVERY_VALUES)) for a in addrs}
-    return _finish(draw, doc)
+    return _finish(draw, doc, many)
 
 
 DISCOVERY_VALUES = [0, 1, 2, 0.5, 5, 40, 1000]
@@ -123,9 +125,9 @@ DISCOVERY_VALUES = [0, 1, 2, 0.5, 5, 40, 1000]
 
 @st.composite
 def documents(draw, max_subnets=4, max_size=3, max_hosts=7, extras=True,
-              deny_rich=False, wide=0.2):
+              deny_rich=False, wide=0.2, many=0.1):
     if wide and _coin(draw, wide):
-        return draw(wide_documents(extras=extras))
+        return draw(wide_documents(extras=extras, many=many))
     n = draw(st.integers(1, max_subnets))
     sizes = []
     for _ in range(n):
@@ -313,14 +315,17 @@ def documents(draw, max_subnets=4, max_size=3, max_hosts=7, extras=True,
         if _coin(draw, 0.25):
             doc["_bounds"] = (N + draw(st.integers(0, 3)),
                               max(sizes) + draw(st.integers(0, 3)))
-    return _finish(draw, doc)
+            if _coin(draw, 0.12):
+                # rows of more than a thousand columns (nothing in the format bounds the address space)
+                doc["_bounds"] = (N + draw(st.integers(0, 2)), 1000 + draw(st.integers(1, 300)))
+    return _finish(draw, doc, many)
 
 
 ACTION_NAMES = ["service_scan", "os_scan", "subnet_scan", "process_scan", "noop", "exploit", "privilege_escalation",
                 "scan", "cost", "none", "0", "Exploit 1", "x", "é/ü", "ssh", "tomcat", "e_ssh", "pe_tomcat", "linux"]
 
 
-def _finish(draw, doc):
+def _finish(draw, doc, many=0.1):
     """names of exploits / escalations are arbitrary strings (the format only asks for uniqueness within
     their section): now and then names that also occur elsewhere in the system's vocabulary - action types,
     services, an exploit and an escalation called the same; and the address keys of the file in another
@@ -335,6 +340,27 @@ def _finish(draw, doc):
             names = [o if k and o not in new else n for o, n, k in zip(old, new, keep)]
             if len(set(names)) == len(names):
                 doc[sec] = {n: doc[sec][o] for o, n in zip(old, names)}
+    if many and _coin(draw, many):
+        # many services (the format puts no bound on the lists): 52-68 more names interleaved with the existing ones,
+        # run by hosts, allowed / denied by rules, some of them exploitable
+        k = draw(st.integers(52, 68))
+        extra = [f"x{i:02d}" for i in range(k)]
+        names = list(extra)
+        for s_ in doc["services"]:
+            names.insert(draw(st.integers(0, len(names))), s_)
+        doc["services"] = names
+        dense = draw(st.sampled_from([0.4, 0.8, 0.9]))
+        for cfg in doc["host_configurations"].values():
+            cfg["services"] = list(cfg["services"]) + [e for e in extra if _coin(draw, dense)]
+            for src in cfg.get("firewall", {}):
+                cfg["firewall"][src] = list(cfg["firewall"][src]) + [e for e in extra if _coin(draw, 0.1)]
+        for rule in doc["firewall"]:
+            doc["firewall"][rule] = list(doc["firewall"][rule]) + [e for e in extra if _coin(draw, 0.12)]
+        oss = doc["os"]
+        for i in range(draw(st.integers(10, 36))):
+            doc["exploits"][f"ex_{i}"] = dict(service=draw(st.sampled_from(extra)), os=draw(st.sampled_from(oss + ["none"] * len(oss))),
+                                              prob=draw(st.sampled_from([1.0, 0.5, 0.9])), cost=draw(st.sampled_from([1, 2, 0.5])),
+                                              access=draw(st.sampled_from(["user", "root"])))
     if _coin(draw, 0.2):
         doc["_keyspell"] = draw(st.integers(1, 3))
     if _coin(draw, 0.2):
